@@ -90,7 +90,8 @@ impl GenOpts {
     }
 }
 
-const SHORTS: &str = "abcdefgijklmnopqrstuvwxyzABCDEFGIJKLMNOPQRSTUWXYZ";
+// no h/V (help, version), no Z (reserved as the undeclared short name)
+const SHORTS: &str = "abcdefgijklmnopqrstuvwxyzABCDEFGIJKLMNOPQRSTUWXY";
 const NONASCII_SHORTS: &[char] = &['é', 'ß', 'я', '日', 'ç'];
 const LONGS: &[&str] = &[
     "alpha", "bravo", "charlie", "delta", "echo", "fox-trot", "golf", "hotel", "india", "juliet",
@@ -530,12 +531,35 @@ impl<'a> Pool<'a> {
         }
     }
 
+    /// a required named item that takes exactly one occurrence
+    pub fn simple_required_field(&mut self) -> Spec {
+        let s = if self.rng.chance(1, 3) {
+            Spec::Item(self.flag_item(Leaf::ReqFlag))
+        } else {
+            Spec::Item(self.arg_item())
+        };
+        self.decorate(s)
+    }
+
     /// a choice between named things with disjoint names
     pub fn alt_group(&mut self) -> Spec {
         let n = self.rng.range(2, 4);
+        let wrapper = self.rng.below(5);
+        // a repeated choice re-runs every branch on what is left of the line: an optional or
+        // repeated member of a branch would take occurrences meant for a later round, so
+        // branches of a repeated choice only contain required single-occurrence items
+        let repeated = wrapper == 3;
         let mut branches = Vec::new();
         for _ in 0..n {
-            if self.rng.chance(1, 4) {
+            if repeated {
+                if self.rng.chance(1, 4) {
+                    let a = self.simple_required_field();
+                    let b = self.simple_required_field();
+                    branches.push(Spec::Seq(vec![a, b]));
+                } else {
+                    branches.push(self.simple_required_field());
+                }
+            } else if self.rng.chance(1, 4) {
                 let a = self.required_named_field();
                 let b = self.named_field();
                 branches.push(Spec::Seq(vec![a, b]));
@@ -543,11 +567,11 @@ impl<'a> Pool<'a> {
                 branches.push(self.required_named_field());
             }
         }
-        if self.o.pure_fail && self.rng.chance(1, 6) {
+        if self.o.pure_fail && !repeated && self.rng.chance(1, 6) {
             branches.push(Spec::Pure(self.id()));
         }
         let a = Spec::Alt(branches);
-        match self.rng.below(5) {
+        match wrapper {
             0 | 1 => a,
             2 => Spec::wrap(W::Optional { catch: false }, self.id(), a),
             3 => Spec::wrap(W::Many { catch: false }, self.id(), a),
